@@ -308,6 +308,8 @@ pub struct C11Cfg {
     pub sq: u32,
     /// Fill the submission queue before the threads start.
     pub sq_full: bool,
+    /// Bookkeeping completions the kernel publishes: before poll number i starts.
+    pub pre_posted: Vec<usize>,
 }
 
 struct C11Shared {
@@ -317,7 +319,7 @@ struct C11Shared {
 }
 
 pub fn c11(cfg: C11Cfg, bound: u32) -> ThHarness {
-    let name = format!("{:?}-polls{:?}-{}x{}wake{}", cfg.mode, cfg.polls, cfg.wakers, cfg.wakes_each, if cfg.sq_full { "-sqfull" } else { "" });
+    let name = format!("{:?}-polls{:?}-{}x{}wake{}{}", cfg.mode, cfg.polls, cfg.wakers, cfg.wakes_each, if cfg.sq_full { "-sqfull" } else { "" }, if cfg.pre_posted.is_empty() { String::new() } else { format!("-cqe-before-poll{:?}", cfg.pre_posted) });
     let describe = json!({"engine": "schx", "ring_mode": format!("{:?}", cfg.mode), "poller_calls": format!("{:?}", cfg.polls), "waker_threads": cfg.wakers, "wakes_each": cfg.wakes_each, "sq": cfg.sq, "sq_full": cfg.sq_full, "preemption_bound": bound});
     let cfg = Arc::new(cfg);
     ThHarness {
@@ -369,6 +371,10 @@ pub fn c11(cfg: C11Cfg, bound: u32) -> ThHarness {
                         }
                         *sq_slot.lock().unwrap() = Some(Sendable(sq));
                         for (i, p) in cfg.polls.iter().enumerate() {
+                            if cfg.pre_posted.contains(&i) {
+                                // A completion is already published when this poll starts.
+                                simk::with(|k| k.post_raw(0, 0, 0, 0));
+                            }
                             shared.lock().unwrap().0.events.push((0, "poll-begin", crate::waker::tick()));
                             let timeout = p.map(Duration::from_secs);
                             let r = talloc::track(|| ring.poll(timeout));
@@ -446,10 +452,26 @@ pub fn c11(cfg: C11Cfg, bound: u32) -> ThHarness {
                                 let _ = c;
                             }
                         }
-                        // previous poll end: the latest poll-end before cur_begin.
+                        // Which earlier polls may have absorbed a wake? Only polls that
+                        // went into the kernel to wait: such a poll may consume a wake-up
+                        // that begins before it returns. A poll that only hands over
+                        // already published completions never waits and consumes none.
+                        let mut polls: Vec<(u64, u64)> = Vec::new(); // (begin, end) of completed polls
+                        let mut b = None;
                         for (t, e, c) in &events {
-                            if *t == 0 && *e == "poll-end" && *c < cur_begin {
-                                last_end = last_end.max(*c);
+                            if *t == 0 && *e == "poll-begin" {
+                                b = Some(*c);
+                            }
+                            if *t == 0 && *e == "poll-end" {
+                                if let Some(bb) = b.take() {
+                                    polls.push((bb, *c));
+                                }
+                            }
+                        }
+                        let waits: Vec<u64> = simk::with(|k| k.enter_returns.iter().filter(|(_, _, w)| *w).map(|(_, c, _)| *c).collect());
+                        for (pb, pe) in &polls {
+                            if *pe < cur_begin && waits.iter().any(|w| *w > *pb && *w < *pe) {
+                                last_end = last_end.max(*pe);
                             }
                         }
                         let mut begun: std::collections::HashMap<usize, u64> = std::collections::HashMap::new();
